@@ -325,6 +325,17 @@ def run_history(spec):
                       initialize_state_info=o["initState"], initialize_log_info=o["initLog"])
             if op.get("defaultAbs") and not o["absL"]:
                 del kw["absence_time_list"]      # rely on the library's default argument
+            if op.get("defaults"):
+                # leave every option that has the library's default value to the library
+                if not o["absL"]:
+                    kw.pop("absence_time_list", None)
+                if not o["autoAbs"]:
+                    kw.pop("perform_auto_task_while_absence_time", None)
+                if o["rule"] == "TSLACK":
+                    kw.pop("task_priority_rule", None)
+                if o["initState"] and o["initLog"]:
+                    kw.pop("initialize_state_info", None)
+                    kw.pop("initialize_log_info", None)
             ev, ret = call_recorded(m, lambda: m.project.simulate(**kw), light=light)
             rec["ev"], rec["ret"] = ([] if light else annotate(ev)), ret
         elif kind == "backward":
@@ -351,6 +362,10 @@ def run_history(spec):
             ev, rec["ret"] = call_recorded(m, lambda: m.project.remove_absence_time_list())
         elif kind == "insert_absence":
             L = list(op["L"])
+            if op.get("rel"):
+                # indices relative to the current end of the logs (0 = first step beyond the end)
+                L = [m.project.time + x for x in L]
+                rec["args"]["L"] = L
             ev, rec["ret"] = call_recorded(m, lambda: m.project.insert_absence_time_list(L))
         elif kind == "saveload":
             if tmp is None:
